@@ -31,6 +31,35 @@ def lattice_on_grid(rep):
     return all(abs(v - round(v)) < 1e-9 for v in vals)
 
 
+def general_position(pts):
+    """consecutive segment directions of the polyline are between 6 and 174 degrees apart"""
+    for i in range(len(pts) - 2):
+        ax, ay = pts[i + 1][0] - pts[i][0], pts[i + 1][1] - pts[i][1]
+        bx, by = pts[i + 2][0] - pts[i + 1][0], pts[i + 2][1] - pts[i + 1][1]
+        la, lb = math.hypot(ax, ay), math.hypot(bx, by)
+        if la == 0 or lb == 0 or abs(ax * by - ay * bx) < 0.1 * la * lb:
+            return False
+    return len(pts) >= 2 and all(pts[i] != pts[i + 1] for i in range(len(pts) - 1))
+
+
+def offset_polyline(pts, off):
+    """centre line of a path element: each spine segment displaced by off along its left normal, consecutive displaced lines
+    joined at their intersection"""
+    segs = []
+    for i in range(len(pts) - 1):
+        dx, dy = pts[i + 1][0] - pts[i][0], pts[i + 1][1] - pts[i][1]
+        L = math.hypot(dx, dy)
+        nx, ny = -dy / L, dx / L
+        segs.append(((pts[i][0] + nx * off, pts[i][1] + ny * off), (pts[i + 1][0] + nx * off, pts[i + 1][1] + ny * off), (dx / L, dy / L)))
+    out = [segs[0][0]]
+    for (a0, a1, ta), (b0, b1, tb) in zip(segs, segs[1:]):
+        cr = ta[0] * tb[1] - ta[1] * tb[0]
+        u = ((b0[0] - a1[0]) * tb[1] - (b0[1] - a1[1]) * tb[0]) / cr
+        out.append((a1[0] + u * ta[0], a1[1] + u * ta[1]))
+    out.append(segs[-1][1])
+    return out
+
+
 def expected_cells(lib, max_points, path_queries):
     """per cell: dict with expected element lists.  path_queries: {(ci, pi): driver output of 'center' or 'topoly'} for the
     ORIGINAL paths (user units), the centre lines / outlines whose transport is judged here."""
@@ -55,6 +84,8 @@ def expected_cells(lib, max_points, path_queries):
             if p["simple"]:
                 for e, cen in zip(p["els"], q["centers"]):
                     spine = [(x / g, y / g) for x, y in cen["pts"]]
+                    if p["kind"] == "fp" and e.get("off"):
+                        spine = offset_polyline(p["spine"], e["off"])      # independent of element_center
                     ps = abs(p.get("prescale") or 1.0)      # a scaled path: widths follow if scale_width, extensions always
                     for off in rep_offsets(p["rep"]):
                         paths.append({"tag": e["tag"], "spine": [(x + off[0], y + off[1]) for x, y in spine], "w": e["w"] * (ps if p["scale_width"] else 1.0),
